@@ -1146,6 +1146,13 @@ class ReversedType(_ParameterizedType):
     num_subtypes = 1
 
     @classmethod
+    def apply_parameters(cls, subtypes, names=None):
+        newcls = super(ReversedType, cls).apply_parameters(subtypes, names)
+        # an empty value means what it means for the wrapped type ('' for text, not null)
+        newcls.empty_binary_ok = subtypes[0].empty_binary_ok
+        return newcls
+
+    @classmethod
     def deserialize_safe(cls, byts, protocol_version):
         subtype, = cls.subtypes
         return subtype.from_binary(byts, protocol_version)
@@ -1159,6 +1166,13 @@ class ReversedType(_ParameterizedType):
 class FrozenType(_ParameterizedType):
     typename = "frozen"
     num_subtypes = 1
+
+    @classmethod
+    def apply_parameters(cls, subtypes, names=None):
+        newcls = super(FrozenType, cls).apply_parameters(subtypes, names)
+        # an empty value means what it means for the wrapped type ('' for text, not null)
+        newcls.empty_binary_ok = subtypes[0].empty_binary_ok
+        return newcls
 
     @classmethod
     def deserialize_safe(cls, byts, protocol_version):
